@@ -156,10 +156,15 @@ def rule_axismirror(ctx):
     f = ctx.program.func("segment.nce", R)
     s = ctx.S.get(f.qual)
     main = [r for r in s.returns if r.term.op == "tuple" and not all(is_lit(x) for x in r.term.a)]
-    need(len(main) == 1 and len(main[0].term.a) == 3, R, "segment.nce: main return not found")
-    over, under, fm = main[0].term.a
+    if len(main) > 1:
+        # several computed exits (guard clauses): compare as a decision table over the truth values of the guards
+        yield from _nce_decision_mirror(f, s, R)
+        main = []
+    need(len(main) == 1 and len(main[0].term.a) == 3 or not main, R, "segment.nce: main return not found")
     M = Mirror(f, equal_counts=True)
-    yield ob(R, f, "segment.nce:over<->under", M.swap(over) is M.norm(under) and M.swap(under) is M.norm(over), "over-segmentation score with roles exchanged is the under-segmentation score (conditional entropies along opposite axes of one contingency table, normalisers shape[1]/shape[0])")
+    if main:
+      over, under, fm = main[0].term.a
+      yield ob(R, f, "segment.nce:over<->under", M.swap(over) is M.norm(under) and M.swap(under) is M.norm(over), "over-segmentation score with roles exchanged is the under-segmentation score (conditional entropies along opposite axes of one contingency table, normalisers shape[1]/shape[0])")
     # pairwise
     f = ctx.program.func("segment.pairwise", R)
     s = ctx.S.get(f.qual)
@@ -221,6 +226,67 @@ def rule_axismirror(ctx):
     P, Rc, _ = _fm_args(s, R, f.qual)
     good, why = _occ_pair(s, P, Rc)
     yield ob(R, f, "pattern.occurrence_FPR:P<->R", good, why)
+
+
+def _nce_decision_mirror(f, s, R):
+    """nce with guard clauses: the exits form a decision list over the truth values of a few guards.  For every
+    valuation of the guards the over-segmentation component must be the mirror image of the under-segmentation
+    component at the mirrored valuation (each guard exchanged with its own mirror image)."""
+    import itertools
+
+    M = Mirror(f, equal_counts=True)
+    rets = [r for r in s.returns if r.term.op == "tuple" and len(r.term.a) == 3]
+    need(len(rets) == len(s.returns) and rets, R, "segment.nce: every exit must return (over, under, F)")
+    # validation / emptiness exits that do not depend on the entropies are the same on both sides: keep the guards
+    # that mention the contingency table only
+    atoms = []
+    for r in rets:
+        for c, p in symeval.pc_conds(r.pc):
+            if any(x.op == "call" and call_name(x) == "segment._contingency_matrix" for x in tm.walk(c)) and not any(a is c for a in atoms):
+                atoms.append(c)
+    need(1 <= len(atoms) <= 4, R, "segment.nce: %d entropy guards; the decision table is read for 1..4" % len(atoms))
+    mirror_of = {}
+    for a in atoms:
+        sw = M.swap(a)
+        for b2 in atoms:
+            if M.norm(b2) is sw:
+                mirror_of[a.id] = b2
+    need(len(mirror_of) == len(atoms), R, "segment.nce: a guard has no mirror image among the guards (%s)" % "; ".join(tm.show(a, 3) for a in atoms if a.id not in mirror_of))
+
+    # the other guards (validation, empty input) are fixed at the polarity they have on the fully computed exit
+    full = max(rets, key=lambda r: len(symeval.pc_conds(r.pc)))
+    fixed = {c.id: p for c, p in symeval.pc_conds(full.pc) if not any(a is c for a in atoms)}
+
+    def pick(val):
+        for r in rets:
+            ok = True
+            for c, p in symeval.pc_conds(r.pc):
+                if any(a is c for a in atoms):
+                    if val[c.id] != p:
+                        ok = False
+                        break
+                elif fixed.get(c.id, p) != p:
+                    ok = False
+                    break
+            if ok:
+                return r
+        return None
+
+    bad = None
+    n = 0
+    for bits in itertools.product([False, True], repeat=len(atoms)):
+        val = {a.id: b_ for a, b_ in zip(atoms, bits)}
+        mval = {a.id: val[mirror_of[a.id].id] for a in atoms}
+        r1, r2 = pick(val), pick(mval)
+        if r1 is None or r2 is None:
+            continue
+        n += 1
+        over, under = r1.term.a[0], r2.term.a[1]
+        if M.swap(over) is not M.norm(under):
+            bad = (val, tm.show(over, 2), tm.show(under, 2))
+            break
+    good = bad is None and n > 0
+    yield ob(R, f, "segment.nce:over<->under", good, "on all %d valuations of the %d entropy guards the over-segmentation score is the mirror image of the under-segmentation score at the mirrored valuation" % (n, len(atoms)) if good else "with the guards %s the over-segmentation score is %s but the under-segmentation score at the mirrored guards is %s: not mirror images" % ({tm.show(a, 2): bad[0][a.id] for a in atoms}, bad[1], bad[2]))
 
 
 def _name_roles(t):
